@@ -41,6 +41,19 @@ def make_pin(rng):
     return pm, dict(D=D, clad_thickness=tc, gap=gap, r_frac=rf, kind=kind, annular=annular)
 
 
+MODEL_REQ = []
+
+
+def bits(x):
+    import struct
+    return struct.unpack("<Q", struct.pack("<d", float(x)))[0]
+
+
+def unbits(n):
+    import struct
+    return struct.unpack("<d", struct.pack("<Q", int(n)))[0]
+
+
 def cond(mat, T):
     mat.update(float(T))
     return float(mat.thermal_conductivity)
@@ -56,6 +69,7 @@ def fuel_chain(pm, info, q, Tsurf):
     qd = q / (math.pi * R * R * (1.0 - rf[0] ** 2))
     mats = [copy.deepcopy(m) for m in pm.fuel['mat']]
     T = float(Tsurf)
+    shells = []
     for i in reversed(range(len(rf))):
         d = 0.25 * R * R * (bounds[i + 1] ** 2 - bounds[i] ** 2)
         kout = cond(mats[i], T)
@@ -67,9 +81,10 @@ def fuel_chain(pm, info, q, Tsurf):
             if done:
                 break
         else:
-            return None
+            return None, None, None
+        shells.append((d, 0.5 * (cond(mats[i], Tin) + kout)))
         T = Tin
-    return T
+    return T, qd, shells
 
 
 def check_relations(ctx, pm, info, q, Tc, h, dz, T):
@@ -92,8 +107,14 @@ def check_relations(ctx, pm, info, q, Tc, h, dz, T):
     if pm.gap['dr'] == 0.0 and T[4] != T[3]:
         return "gap", "no gap but fuel surface temperature differs from clad inner temperature"
     if info['r_frac'][-1] != 1.0:
-        cl = fuel_chain(pm, info, q, T[4])
+        cl, qd, shells = fuel_chain(pm, info, q, T[4])
         if cl is not None:
+            # request for the Lean model (Model/Pin.lean through the driver): clad with the conductivity at the reported face
+            # temperatures, the reported gap drop, the shells with their own converged conductivities
+            MODEL_REQ.append(("pin %s | %s" % (" ".join(str(bits(v)) for v in (Tc, C, h, pm.clad['r'][2], pm.clad['ln_r2r_2node'][1],
+                                                                             pm.clad['ln_r2r'], kc, T[4] - T[3], qd)),
+                                              " ".join("%d %d" % (bits(d), bits(k)) for d, k in shells)),
+                              [float(x) for x in T], dict(info=info, q=q, Tcool=Tc, htc=h)))
             ctx.count("fuel_chain_checked")
             if abs(cl - T[5]) > tol + 1e-4 * abs(cl - T[4]):
                 return "fuel-shells", ("fuel centre temperature %.6f K differs from the shell-by-shell conduction chain %.6f K (surface %.6f K; "
@@ -158,7 +179,29 @@ def run(ctx):
                 "or >0 (radiating), temperature-dependent clad; powers zero .. extreme (iteration-limit exit); non-trivial = "
                 "one (pin model, power level) evaluation")
     ctx.prove("Dassh.Props.C13")
+    del MODEL_REQ[:]
     oracle(ctx, rng, 600 if ctx.thorough else 150)
+    # correspondence: the Lean model (chain of closed-form conduction steps) on the same data vs the real PinModel
+    from harness import modelio
+    if modelio.build_driver(ctx) and MODEL_REQ:
+        reps = modelio.ask([r[0] for r in MODEL_REQ])
+        bad, worst = 0, 0.0
+        for rep, (req, T, ctxinfo) in zip(reps, MODEL_REQ):
+            parts = rep.split()
+            if parts[0] != "ok":
+                bad += 1
+                continue
+            m = [unbits(v) for v in parts[1:]]
+            dev = max(abs(m[0] - T[1]), abs(m[1] - T[2]), abs(m[2] - T[3]), abs(m[-1] - T[5]))
+            worst = max(worst, dev)
+            if dev > 2e-2 + 1e-4 * abs(T[5] - T[0]):
+                bad += 1
+                if bad == 1:
+                    ctx.problem("correspondence", "Model.Pin vs PinModel.calculate_temperatures",
+                                "model %s vs reported %s for %s" % ([m[0], m[1], m[2], m[-1]], [T[1], T[2], T[3], T[5]], ctxinfo))
+        ctx.obligation("correspondence: Model.Pin (cladOD/MW/ID, fuelShells) = PinModel.calculate_temperatures on %d pins (max dev %.2g K)"
+                       % (len(MODEL_REQ), worst), bad == 0, kind="correspondence", detail="disagreements %d" % bad)
+        ctx.stats["model_vs_impl_max_dev_K"] = worst
     ctx.nontrivial = ctx.evals
     ctx.traces = ctx.evals
     ctx.trusted += ["hand model lean/Dassh/Model/Pin.lean; its relations are evaluated on the temperatures the real PinModel "
